@@ -285,6 +285,13 @@ def run(ctx):
                 v_across = geoloc.ScanGeometry(np.stack([f0, 0 * f1]), offs).vectors(pos.copy(), vel.copy()).reshape(3, -1)
                 v_along = geoloc.ScanGeometry(np.stack([0 * f0, f1]), offs).vectors(pos.copy(), vel.copy()).reshape(3, -1)
                 v_both = geoloc.ScanGeometry(np.stack([f0, f1]), offs).vectors(pos.copy(), vel.copy()).reshape(3, -1)
+                # the SAME geometry object asked again with another attitude (a geometry is built once per instrument and
+                # reused for every granule): judged against a geometry built afresh for that attitude
+                rpy2 = tuple(rng.uniform(-3, 3) * DEG for _ in range(3))
+                v_re = sg.vectors(pos.copy(), vel.copy(), *rpy2).reshape(3, -1)
+                v_re_ref = geoloc.ScanGeometry(np.stack([f0 + rpy2[0], f1 + rpy2[1]]), offs).vectors(pos.copy(), vel.copy(), 0.0, 0.0, rpy2[2]).reshape(3, -1)
+                with np.errstate(invalid="ignore"):
+                    pix_re = geoloc.compute_pixels(arg, sg, times, rpy2).reshape(3, -1)
         except Exception as e:
             ctx.violation("ScanGeometry.vectors raised %s" % type(e).__name__, {"signature": sig + ":vraise", **base, "error": str(e)[:200]})
             continue
@@ -294,6 +301,11 @@ def run(ctx):
         if not ang0[j] <= 0.2:
             ctx.violation("zero scan angles and attitude do not give the nadir direction within 0.2 deg of geocentric nadir",
                           {"signature": sig + ":nadir", **base, "column": j, "pos": X[:, j].tolist(), "angle_deg": float(ang0[j])})
+        base2 = dict(base, rpy_rad=list(rpy2), earlier_query_on_the_same_geometry_object_rpy_rad=list(rpy))
+        if not np.abs(v_re - v_re_ref).max() <= 1e-12:
+            ctx.violation("a geometry object asked a second time, with another attitude: roll/pitch do not add to the across-/along-track scan angles",
+                          {"signature": sig + ":adds-reused", **base2, "max_difference": float(np.abs(v_re - v_re_ref).max())})
+        judge_columns(sig + ":reused", base2, X, v_re_ref, pix_re)
         if not np.abs(V - v_add).max() <= 1e-12:
             ctx.violation("roll/pitch do not add to the across-/along-track scan angles",
                           {"signature": sig + ":adds", **base, "max_difference": float(np.abs(V - v_add).max())})
